@@ -77,6 +77,8 @@
 spif_obj_t vg_old_k, vg_old_k2;
 /* entry-state snapshot of the slot an index ARGUMENT designates */
 spif_obj_t vg_old_x;
+/* witness scalar for the native replay: the length of the container under test (tied by ARRAY_VALID_W) */
+long w_len;
 /* slot index of the loop iteration in progress (annotation: vg_cur = i at body top) */
 size_t vg_cur;
 /* map units (velem_map.h phase 2; declared here because the shared annotation table names them) */
